@@ -253,6 +253,13 @@ func (k *kase) judgeMulti(settled bool) {
 		if !settled {
 			continue
 		}
+		if m.live {
+			var stale int
+			h.Rows, stale = pendingRows(h.Rows, h.Dst)
+			if stale > 0 {
+				k.r.Hit("mech:stale-row-of-delivered-blob-live")
+			}
+		}
 		if len(h.Rows) > 0 || len(h.Need) > 0 {
 			k.r.Fail("pending-left-after-recovery", name+": rows or needCopy not empty after a failure-free drain", "empty", v.String(), ops)
 		}
@@ -319,6 +326,14 @@ func (k *kase) finish() {
 	for _, i := range v.Acked {
 		if _, at := v.Dst[i]; !at {
 			k.r.Fail("acked-not-delivered-after-recovery", fmt.Sprintf("acknowledged blob %d is not at the destination after restart + failure-free drain", i), "delivered", v.String(), ops)
+		}
+	}
+	if k.live {
+		// see pendingRows: a stale row of a delivered blob is possible (and harmless) under the real loop
+		var stale int
+		v.Rows, stale = pendingRows(v.Rows, v.Dst)
+		if stale > 0 {
+			k.r.Hit("mech:stale-row-of-delivered-blob-live")
 		}
 	}
 	if len(v.Rows) > 0 || len(v.Need) > 0 {
